@@ -20,6 +20,7 @@ type DiskFault struct {
 	File   string `json:"file"`
 	File2  string `json:"file2,omitempty"`
 	Params []int  `json:"params,omitempty"`
+	Text   string `json:"text,omitempty"` // for kind "overwrite": the new content
 }
 
 // C13Case: producers write patch artefacts, storage and transport damage
@@ -42,6 +43,8 @@ func applyDiskFault(fs, before *simos.FS, f DiskFault, sector int) bool {
 	}
 	old := before.Files[f.File]
 	switch f.Kind {
+	case "overwrite":
+		fs.Files[f.File] = []byte(f.Text)
 	case "bitrot":
 		if len(cur) == 0 {
 			return false
@@ -459,6 +462,12 @@ func genCase13(c *Chooser) C13Case {
 			cs.Disk = append(cs.Disk, df)
 		}
 	}
+	// sometimes the artefact is not what a producer wrote but what an operator
+	// wrote or edited by hand (the native format is meant to be editable):
+	// structurally valid hunks with arbitrary paths, context and metadata
+	if c.Chance(1, 6) {
+		cs.Disk = append(cs.Disk, DiskFault{After: np - 1, Kind: "overwrite", File: "p", Text: handWritten(c)})
+	}
 	// consumer
 	civ := iv
 	if c.Chance(3, 10) {
@@ -534,7 +543,7 @@ func genCase13(c *Chooser) C13Case {
 			consumer = ProcSpec{Bin: civ.bin, Argv: renderArgv(c, fl, []string{"p"}), Stdin: &StdinSpec{From: "file:" + cs.Target, Plan: plan, EOFWithData: ewd}}
 		}
 	} else {
-		t := []string{"jd2patch", "patch2jd", "jd2merge", "merge2jd", "json2yaml", "yaml2json"}[c.Int(6)]
+		t := []string{"jd2patch", "patch2jd", "jd2merge", "merge2jd", "json2yaml", "yaml2json", "jd2json", "patch2yaml", "merge2json", "jd2jd"}[c.Int(10)]
 		tf := []flagSpec{{"t", t, true, false}}
 		if c.Chance(1, 4) {
 			tf = append(tf, flagSpec{"o", "result", true, false})
@@ -678,4 +687,40 @@ func shrink13(raw json.RawMessage) []json.RawMessage {
 		}
 	}
 	return out
+}
+
+// handWritten produces a native-format diff the way a person editing one
+// might: every path element kind, indices that are negative, fractional or
+// huge, context markers, merge metadata, several values per hunk.
+func handWritten(c *Chooser) string {
+	var sb strings.Builder
+	elems := []string{`"a"`, `"b"`, `"id"`, `0`, `1`, `2`, `-1`, `-3`, `1.5`, `1e30`, `{}`, `[]`, `{"id":1}`, `{"id":[1]}`, `[{"id":1}]`, `[1]`, `[[]]`, `""`, `true`, `null`}
+	vals := []string{`1`, `"x"`, `{}`, `[]`, `{"a":{"b":1}}`, `[1,2]`, `null`, `true`, `{"id":1,"a":2}`}
+	for h := 0; h < c.Range(1, 4); h++ {
+		if c.Chance(1, 3) {
+			sb.WriteString([]string{"^ {\"Merge\":true}\n", "^ {\"Merge\":false}\n", "^ {}\n", "^ {\"Merge\":1}\n"}[c.Pick(6, 2, 1, 1)])
+		}
+		var path []string
+		for d := 0; d < c.Int(4); d++ {
+			path = append(path, elems[c.Int(len(elems))])
+		}
+		sb.WriteString("@ [" + strings.Join(path, ",") + "]\n")
+		if c.Chance(1, 3) {
+			sb.WriteString([]string{"[\n", "  " + vals[c.Int(len(vals))] + "\n"}[c.Int(2)])
+		}
+		for i := 0; i < c.Int(3); i++ {
+			sb.WriteString("- " + vals[c.Int(len(vals))] + "\n")
+		}
+		for i := 0; i < c.Int(3); i++ {
+			if c.Chance(1, 8) {
+				sb.WriteString("+\n")
+			} else {
+				sb.WriteString("+ " + vals[c.Int(len(vals))] + "\n")
+			}
+		}
+		if c.Chance(1, 3) {
+			sb.WriteString([]string{"]\n", "  " + vals[c.Int(len(vals))] + "\n"}[c.Int(2)])
+		}
+	}
+	return sb.String()
 }
